@@ -67,8 +67,9 @@ CONFIG = dict(
                            "a blocked (as opposed to failing) write of the client"],
     assumptions=["a conforming cache answers a Reset Query with announcements only; streams with withdrawals in a reset response "
                  "or with known-type PDUs spelled as `raw` are compared model-vs-code but not judged by the oracle",
-                 "after an Error Report PDU the client may keep or drop the session (RFC 8210 section 10); if it keeps it the "
-                 "installed set is still judged"],
+                 "the client may end the session on receiving a COMPLETE Error Report with a fatal code (any but 2, RFC 8210 section "
+                 "10) - at that PDU only: once a snapshot has shown the session up with the report complete it excuses nothing; a "
+                 "drop on code 2, on a partly received report or on a later PDU is session-dropped-on-well-formed-stream"],
     oracle_stats=True,
     expect_judged=["judged-installed", "judged-installed-empty", "judged-kept", "judged-consumed", "judged-ended-cleared",
                    # input classes (boundary buckets, counted per case) that every run must contain
